@@ -77,6 +77,15 @@ def main():
             viol = [ln for ln in o.splitlines() if ln.startswith('VIOLATION')]
             detail = [ln.strip() for ln in o.splitlines() if ln.startswith('  engine=')]
             res[p] = {'rc': rc, 'violations': len(viol), 'detail': [x[:260] for x in detail[:3]]}
+            try:
+                ev = json.load(open(os.path.join(VERIF, 'evidence', '%s.json' % p)))
+                cross = {}
+                for st in ev['coverage'].get('stages', []):
+                    for k, n in (st.get('cross_hits_other_properties') or {}).items():
+                        cross[k] = cross.get(k, 0) + n
+                res[p]['cross_hits'] = cross
+            except Exception:
+                pass
             if rc == 2:
                 res[p]['harness'] = [ln for ln in o.splitlines() if 'HARNESS' in ln][:1]
         out['checks'] = res
